@@ -260,6 +260,9 @@ func c03Cases(tier string) []c03Case {
 			}
 			add(c)
 		}
+		add(c03Case{Label: "resources/read empty text", Msg: mkMsg(7, "resources/read", map[string]interface{}{"uri": "res://empty"}, nil), Method: "resources/read", ReqID: "7", Success: true})
+		add(c03Case{Label: "resources/read empty blob", Msg: mkMsg(7, "resources/read", map[string]interface{}{"uri": "res://emptyblob"}, nil), Method: "resources/read", ReqID: "7", Success: true})
+		add(c03Case{Label: "tools/call empty text and embedded empty resource", Msg: mkMsg(7, "tools/call", map[string]interface{}{"name": "t", "arguments": map[string]interface{}{"mode": "empty-embedded"}}, nil), Method: "tools/call", ReqID: "7", Success: true})
 		add(c03Case{Label: "prompts/get handler=err", Msg: mkMsg(7, "prompts/get", map[string]interface{}{"name": "perr"}, nil), Method: "prompts/get", ReqID: "7", Codes: []int{-32603}, MustError: true, MsgPart: "boom-7f3a"})
 		add(c03Case{Label: "resources/read handler=err", Msg: mkMsg(7, "resources/read", map[string]interface{}{"uri": "res://err"}, nil), Method: "resources/read", ReqID: "7", Codes: []int{-32603}, MustError: true, MsgPart: "boom-7f3a"})
 		if mode != "ls" && mode != "io" { // SSEServer/StdioServer.RegisterPrompt refuse a nil handler
@@ -321,6 +324,8 @@ func c03Register(r *Rig) {
 			return mcp.NewTextResult("partial"), errors.New("boom-7f3a")
 		case "nil":
 			return nil, nil
+		case "empty-embedded":
+			return &mcp.CallToolResult{Content: []mcp.Content{mcp.NewTextContent(""), mcp.EmbeddedResource{Type: "resource", Resource: mcp.TextResourceContents{URI: "res://empty", Text: ""}}}}, nil
 		case "nan":
 			return &mcp.CallToolResult{Content: []mcp.Content{mcp.NewTextContent("x")}, StructuredContent: map[string]interface{}{"v": math.NaN()}}, nil
 		case "chan":
@@ -340,6 +345,12 @@ func c03Register(r *Rig) {
 	}
 	r.RegisterResource(&mcp.Resource{Name: "r", URI: "res://r", MimeType: "text/plain"}, func(ctx context.Context, req *mcp.ReadResourceRequest) (mcp.ResourceContents, error) {
 		return mcp.TextResourceContents{URI: "res://r", MIMEType: "text/plain", Text: "content"}, nil
+	})
+	r.RegisterResource(&mcp.Resource{Name: "empty", URI: "res://empty", MimeType: "text/plain"}, func(ctx context.Context, req *mcp.ReadResourceRequest) (mcp.ResourceContents, error) {
+		return mcp.TextResourceContents{URI: "res://empty", MIMEType: "text/plain", Text: ""}, nil // an empty text file
+	})
+	r.RegisterResource(&mcp.Resource{Name: "emptyblob", URI: "res://emptyblob"}, func(ctx context.Context, req *mcp.ReadResourceRequest) (mcp.ResourceContents, error) {
+		return mcp.BlobResourceContents{URI: "res://emptyblob", Blob: ""}, nil
 	})
 	r.RegisterResource(&mcp.Resource{Name: "e", URI: "res://err"}, func(ctx context.Context, req *mcp.ReadResourceRequest) (mcp.ResourceContents, error) {
 		return nil, errors.New("boom-7f3a")
